@@ -82,7 +82,10 @@ func (*ExprCondition).Evaluate
   requires ec.fast != nil ==> fcOK(ec.fast)
   requires ec.compound != nil ==> forall(i, 0, len(ec.compound.parts), fcOK(ec.compound.parts[i]))
   modifies *
-  ensures true
+  count ran := Run
+  observe fastOK := eval#1
+  atreturn a-row-the-shortcut-declines-is-decided-by-the-general-evaluator: (ec.compound == nil && ec.fast == nil) || !$fastOK ==> $ran == 1
+  atreturn a-row-the-shortcut-decides-never-reaches-the-general-evaluator: (ec.compound != nil || ec.fast != nil) && $fastOK ==> $ran == 0
 
 func matchesLikePattern
   props C13 C05 C06 C12 C17
